@@ -22,6 +22,19 @@ C15_BackendSeesEffective(r) == \A i \in 1..Len(r.conns) : r.conns[i].adapterCall
 C15_CookieBoundToEffective(r) == \A i \in 1..Len(r.conns) : r.conns[i].cookieAddr # "none" => r.conns[i].cookieAddr = Eff(r, i)
 C15_LoginGetsCookie(r) == \A i \in 1..Len(r.conns) : (r.conns[i].kind = "login" /\ D(r, i) = "serve" /\ r.cfg.secret) => r.conns[i].cookieAddr # "none"
 
+\* application level: the configured PROXY versions and the limiter as wired by passage::start. `expect` is computed here:
+\* a header of a disabled version is closed unserved and consumes no budget; enabled versions are served up to `limit` per source IP
+AppHeaderOk(r, c) == (c.hdr = "v1" /\ r.allowV1) \/ (c.hdr = "v2" /\ r.allowV2)
+AppAdmittedBefore(r, i) == Cardinality({j \in 1..(i-1) : AppHeaderOk(r, r.results[j]) /\ r.results[j].src = r.results[i].src /\ r.results[j].outcome = "served"})
+C15_ApplicationWiring(r) ==
+  \A i \in 1..Len(r.results) :
+     LET c == r.results[i] IN
+     IF AppHeaderOk(r, c) /\ AppAdmittedBefore(r, i) < r.limit THEN c.outcome = "served" ELSE (c.outcome = "closed" /\ c.bytes = 0)
+
+\* n connections from one address decided at the same moment: exactly `limit` of them are served, the others get nothing
+C15_ConcurrentAdmissions(r) == /\ r.served = (IF r.n < r.cfg.limit THEN r.n ELSE r.cfg.limit)
+                               /\ \A i \in 1..Len(r.results) : r.results[i].outcome # "served" => (r.results[i].outcome = "closed" /\ r.results[i].bytes = 0)
+
 (* ---- C16: one stalled or hostile client never delays another ---- *)
 C16_GoodServedPromptly(r) == r.goodOutcome = "served" /\ r.goodLatencyMs <= 2000
 
@@ -34,15 +47,22 @@ C17_LateNotServed(r) == \A i \in 1..Len(r.late) : r.late[i].bytes = 0 /\ r.late[
 \* it does not return early either: not before the last in-flight connection finished (minus scheduling noise)
 C17_NotBeforeInFlight(r) == \A i \in 1..Len(r.inflight) : r.returnedMs + 150 >= r.inflight[i].endMs
 
+\* application level (passage::start interrupted by the operator): the in-flight exchange completes, start() returns only afterwards,
+\* a connection arriving after the interrupt gets nothing
+C17_ApplicationDrains(r) == r.gotStatus /\ r.pong /\ ~r.returnedBeforeInFlightDone /\ r.returned /\ r.lateBytes = 0 /\ r.lateOutcome # "served"
+
 (* ---- C14: operator-configured limits and the deadline ---- *)
 C14_MaxLength(r) == (r.outcome = "served") <=> (r.sentLen <= r.maxLen)
 C14_CookieAcceptance(r) == r.encReqAuth = ~(r.age + 2 <= r.expiry /\ r.secretMatches /\ r.ipMatches) \/ (r.age > r.expiry - 2 /\ r.age < r.expiry + 2)
 C14_Deadline(r) == r.closed /\ r.closedAfterMs <= r.timeoutMs + 1000
+\* a frame whose length prefix never ends within five bytes is refused at once, not buffered until the deadline
+C14_OverlongRefused(r) == r.behaviour = "overlong-prefix" => (r.closed /\ r.closedAfterMs <= 1500)
 
 Names(fam) == CASE fam = "C15" -> {"C15_ServedIffAdmitted", "C15_RefusedGetsNothing", "C15_NoBackendForUnserved", "C15_BackendSeesEffective", "C15_CookieBoundToEffective", "C15_LoginGetsCookie"}
                 [] fam = "C16" -> IF Prop = "C17" THEN {"C17_StopsDespiteHostile"} ELSE {"C16_GoodServedPromptly"}
                 [] fam = "C17" -> {"C17_ReturnsAfterAllFinished", "C17_WithinTimeout", "C17_InFlightCompletes", "C17_LateNotServed", "C17_NotBeforeInFlight"}
-                [] fam = "C14len" -> {"C14_MaxLength"} [] fam = "C14cookie" -> {"C14_CookieAcceptance"} [] fam = "C14deadline" -> {"C14_Deadline"}
+                [] fam = "C17app" -> {"C17_ApplicationDrains"} [] fam = "C15app" -> {"C15_ApplicationWiring"} [] fam = "C15race" -> {"C15_ConcurrentAdmissions"}
+                [] fam = "C14len" -> {"C14_MaxLength"} [] fam = "C14cookie" -> {"C14_CookieAcceptance"} [] fam = "C14deadline" -> {"C14_Deadline", "C14_OverlongRefused"}
                 [] OTHER -> {}
 Clause(c, r) ==
   CASE c = "C15_ServedIffAdmitted" -> C15_ServedIffAdmitted(r) [] c = "C15_RefusedGetsNothing" -> C15_RefusedGetsNothing(r)
@@ -52,7 +72,8 @@ Clause(c, r) ==
     [] c = "C17_ReturnsAfterAllFinished" -> C17_ReturnsAfterAllFinished(r) [] c = "C17_WithinTimeout" -> C17_WithinTimeout(r)
     [] c = "C17_InFlightCompletes" -> C17_InFlightCompletes(r) [] c = "C17_LateNotServed" -> C17_LateNotServed(r)
     [] c = "C17_NotBeforeInFlight" -> C17_NotBeforeInFlight(r)
-    [] c = "C14_MaxLength" -> C14_MaxLength(r) [] c = "C14_CookieAcceptance" -> C14_CookieAcceptance(r) [] c = "C14_Deadline" -> C14_Deadline(r)
+    [] c = "C17_ApplicationDrains" -> C17_ApplicationDrains(r) [] c = "C15_ApplicationWiring" -> C15_ApplicationWiring(r) [] c = "C15_ConcurrentAdmissions" -> C15_ConcurrentAdmissions(r)
+    [] c = "C14_MaxLength" -> C14_MaxLength(r) [] c = "C14_CookieAcceptance" -> C14_CookieAcceptance(r) [] c = "C14_Deadline" -> C14_Deadline(r) [] c = "C14_OverlongRefused" -> C14_OverlongRefused(r)
     [] OTHER -> FALSE
 
 Judge == n >= 1 => LET r == Recs[n]  bad == {c \in Names(r.family) : ~Clause(c, r)} IN
